@@ -75,7 +75,7 @@ except Exception:
     pass
 
 
-def sh(cmd, cwd, timeout, log):
+def sh(cmd, cwd, timeout, log, holder=None):
     t0 = time.time()
     with open(log, 'ab') as lf:
         lf.write(('\n$ ' + ' '.join(cmd) + '\n').encode())
@@ -83,6 +83,8 @@ def sh(cmd, cwd, timeout, log):
         try:
             p = subprocess.Popen(cmd, cwd=cwd, stdout=subprocess.PIPE, stderr=lf, preexec_fn=_limits)
             CHILDREN.add(p.pid)
+            if holder is not None:
+                holder.append(p.pid)
             try:
                 out, _ = p.communicate(timeout=timeout)
             except subprocess.TimeoutExpired:
@@ -109,7 +111,7 @@ class Group(object):
                  loops=None, normalise=False, defines=(), cbmc=(), solver='sat', timeout=600,
                  tier='quick', malloc_fail=None, expect_min=1, must_have=(), covers=('end',),
                  what='', scope=None, replay=None, unwind=None, gen=None, functions=(),
-                 instances=None, apply_loops=None, extra_instrument=(), object_bits=None, cover_solver=False, shards=None, weight=1, thorough_for=()):
+                 instances=None, apply_loops=None, extra_instrument=(), object_bits=None, cover_solver=False, shards=None, weight=1, thorough_for=(), refuter=None):
         self.gid = gid
         self.props = list(props)
         self.kind = kind
@@ -144,6 +146,10 @@ class Group(object):
         self.weight = weight
         self.thorough_for = list(thorough_for)   # properties for which this group runs in the thorough tier only
         self.shards = 1 if shards is None else shards
+        # portfolio: a second back end ('kissat') runs alongside the prover and may REFUTE (find a counterexample)
+        # where the prover would time out; the first definitive verdict stands (hash.mul: cvc5 proves in minutes,
+        # SAT does not, but on a broken variant kissat finds the failing key while cvc5 times out)
+        self.refuter = refuter
 
 
 class GroupResult(object):
@@ -325,6 +331,11 @@ def _run_group(g, r, sdir, log):
         chk += ['--cvc5']
     elif g.solver == 'z3':
         chk += ['--z3']
+    elif g.solver == 'kissat' or (g.solver == 'sat' and g.kind != 'B' and os.environ.get('VF_SAT', 'kissat') == 'kissat'):
+        # default propositional back end of the proved / step groups: kissat (measured 5-50x faster than the
+        # built-in minisat2 on these instances; hash.mul: 14 s against no result in 900 s).  Bounded groups are
+        # concrete executions with trivial solver work and keep the built-in solver.
+        chk += ['--external-sat-solver', 'kissat']
     r.cmds.append(' '.join(chk))
     shard_args = [[]]
     if g.shards > 1:
@@ -349,7 +360,62 @@ def _run_group(g, r, sdir, log):
                        # vacuity canaries (which are expected to fail), and those traces can run to gigabytes
     want_trace = (g.kind != 'B')
 
+    def parse_text(out):
+        res = []
+        for ln in out.decode('utf-8', 'replace').splitlines():
+            m = re.match(r'^\[([^\]\s]+)\] (.*): (SUCCESS|FAILURE|UNKNOWN|ERROR)\s*$', ln)
+            if m:
+                res.append({'property': m.group(1), 'description': re.sub(r'^(file \S+ )?line \d+ ', '', m.group(2)), 'status': m.group(3)})
+        return res
+
+    def one_portfolio(extra):
+        """prover (g.solver) and refuter side by side; first definitive verdict wins, the other is killed"""
+        import threading
+        cmd_p = [a for a in chk if a not in ('--json-ui', '--trace')] + extra
+        cmd_r = [a for a in cmd_p if a not in ('--cvc5', '--z3')] + ['--external-sat-solver', g.refuter]
+        done = threading.Event()
+        box = {}
+        pids = {'p': [], 'r': []}
+
+        def run(tag, cmd):
+            try:
+                rc, out, dt = sh(cmd, sdir, g.timeout, log, pids[tag])
+                res = parse_text(out) if rc in (0, 10) else []
+                real_fail = any(p['status'] == 'FAILURE' and 'VF-CANARY' not in p['description'] for p in res)
+                all_decided = bool(res) and all(p['status'] in ('SUCCESS', 'FAILURE') for p in res)
+                # the refuter's word counts only for a refutation or a complete verdict
+                if (tag == 'p' and all_decided) or (tag == 'r' and (real_fail or all_decided)):
+                    if not done.is_set():
+                        box['res'] = (res, dt, tag)
+                        done.set()
+            except Infra:
+                pass
+        w = SOLVER_SLOTS.acquire(g.weight + 1)
+        try:
+            ts = [threading.Thread(target=run, args=('p', cmd_p)), threading.Thread(target=run, args=('r', cmd_r))]
+            for t in ts:
+                t.start()
+            while any(t.is_alive() for t in ts) and not done.is_set():
+                done.wait(1.0)
+            for tag in ('p', 'r'):
+                for pid in pids[tag]:
+                    try:
+                        os.killpg(pid, 9)
+                    except Exception:
+                        pass
+            for t in ts:
+                t.join()
+        finally:
+            SOLVER_SLOTS.release(w)
+        if 'res' not in box:
+            raise Infra("neither the prover (%s) nor the refuter (%s) reached a verdict within %ds" % (g.solver, g.refuter, g.timeout))
+        res, dt, tag = box['res']
+        r.reason = 'verdict by ' + (g.solver if tag == 'p' else 'refuter ' + g.refuter)
+        return res, dt
+
     def one(extra):
+        if g.refuter:
+            return one_portfolio(extra)
         w = SOLVER_SLOTS.acquire(g.weight)
         try:
             cmd = [a for a in chk if a not in ('--json-ui', '--trace')] if text_ui else chk
@@ -403,7 +469,10 @@ def _run_group(g, r, sdir, log):
         try:
             w = SOLVER_SLOTS.acquire(g.weight)
             try:
-                rc, out, dt = sh(chk + targs, sdir, g.timeout, log)
+                tchk = chk
+                if g.refuter and r.reason.startswith('verdict by refuter'):
+                    tchk = [a for a in chk if a not in ('--cvc5', '--z3')] + ['--external-sat-solver', g.refuter]
+                rc, out, dt = sh(tchk + targs, sdir, g.timeout, log)
             finally:
                 SOLVER_SLOTS.release(w)
             r.solver_s += dt
